@@ -378,6 +378,13 @@ func (g *Gen) Device(t *Config, nedits int) (*Store, []string) {
 	// Foreign objects: must never be touched.
 	s.Groups = append(s.Groups, newGroup("ext-group", []string{"192.168.1.1"}), newGroup("other-team-group", []string{"192.168.2.0/24"}))
 	s.Services = append(s.Services, tcpService("HTTP", "TCP", 80))
+	// Foreign ids that contain the prefix somewhere else, differ in case
+	// or extend another word: none of them belongs to Netspoc.
+	s.Groups = append(s.Groups, newGroup("Backup-of-Netspoc-g1", []string{"192.168.4.1"}), newGroup("netspoc-lowercase", []string{"192.168.4.2"}))
+	s.Services = append(s.Services, tcpService("Customer-Netspoc-mirror", "TCP", 8080), tcpService("XNetspoc-tcp_81", "TCP", 81))
+	s.Policies = append(s.Policies, &Policy{Id: "DMZ_Netspoc_exceptions", Rules: []*Rule{{Id: "x1", Action: "ALLOW", SequenceNumber: 5,
+		SourceGroups: []string{GroupPath + "Backup-of-Netspoc-g1"}, DestinationGroups: []string{"ANY"}, Services: []string{ServicePath + "Customer-Netspoc-mirror"},
+		Scope: []string{"ANY"}, Direction: "IN_OUT"}}})
 	s.Policies = append(s.Policies, &Policy{Id: "default-layer3-section", Rules: []*Rule{{Id: "default-rule", Action: "DROP", SequenceNumber: 1000,
 		SourceGroups: []string{"ANY"}, DestinationGroups: []string{GroupPath + "other-team-group"}, Services: []string{ServicePath + "HTTP"},
 		Scope: []string{"ANY"}, Direction: "IN_OUT"}}})
